@@ -94,6 +94,13 @@ class SetLst:
         return z3.Select(self.a, x)
 
 
+class MapV:
+    """python dict with opaque keys: membership predicate + value function (read only)"""
+
+    def __init__(self, name, has, get):
+        self.name, self.has, self.get = name, has, get
+
+
 class Tup:
     def __init__(self, items):
         self.items = list(items)
@@ -125,6 +132,14 @@ class Fn:
 class Raised(Exception):
     def __init__(self, exc_name, state):
         self.exc_name, self.state = exc_name, state
+
+
+class ForkOn(Exception):
+    """raised by a contract hook while evaluating an expression whose outcome depends on a condition
+    (dictionary lookup: present / KeyError): the statement is re-executed on the two refined states"""
+
+    def __init__(self, cond, exc_name, tag):
+        self.cond, self.exc_name, self.tag = cond, exc_name, tag
 
 
 class _Return(Exception):
@@ -441,6 +456,16 @@ class Interp:
     def e_Subscript(self, e, st):
         base = self.eval(e.value, st)
         idx = self.eval(e.slice, st)
+        if isinstance(base, MapV):
+            if not (isinstance(idx, z3.ExprRef) and idx.sort() == ValSort):
+                raise Unsupported("map key")
+            known = st.ghosts.get("known", set())
+            tag = "%s[%s]" % (base.name, idx)
+            if (tag, True) in known:
+                return base.get(idx)
+            if (tag, False) in known:
+                raise Unsupported("lookup of a key known to be absent")
+            raise ForkOn(base.has(idx), "KeyError", tag)
         hook = self.spec.get("subscript")
         if hook is not None:
             r = hook(self, st, base, idx)
@@ -498,6 +523,8 @@ class Interp:
             raise Unsupported("list method %s under the set abstraction" % meth)
         if meth == "append" and len(args) == 1:
             v = args[0]
+            if isinstance(v, Tup) and self.spec.get("pack") is not None:
+                v = self.spec["pack"](self, st, v)
             if not (isinstance(v, z3.ExprRef) and v.sort() == ValSort):
                 raise Unsupported("append of a non-opaque value")
             self.assign(target_expr, Lst(z3.Concat(lst.s, z3.Unit(v))), st)
@@ -788,6 +815,8 @@ class Interp:
         rest of the block so that an early return on one path does not lose the others."""
         finals = []
         work = [(list(stmts), st)]
+        outer_carry = getattr(self, "carry", None)
+        self.carry = []
         while work:
             block, cur = work.pop()
             try:
@@ -801,6 +830,8 @@ class Interp:
                 finals.append(("break", None, b.state))
             except _Continue as c:
                 finals.append(("continue", None, c.state))
+        finals.extend(self.carry)
+        self.carry = outer_carry if outer_carry is not None else []
         return finals
 
     def exec_seq(self, block, st, work):
@@ -822,13 +853,41 @@ class Interp:
                     work.append((list(s.body) + rest, st_t))
                 return []
             if isinstance(s, ast.Try):
-                self.res.drops.append("try/except at line %d: handlers %s not modelled (unreachable under the stated precondition)"
-                                      % (s.lineno, [ast.unparse(h.type) if h.type else "bare" for h in s.handlers]))
                 if s.finalbody or s.orelse:
                     raise Unsupported("try with else/finally")
-                work.append((list(s.body) + rest, cur))
+                names = {}
+                for h in s.handlers:
+                    if h.type is None or h.name is not None and any(isinstance(n, ast.Name) and n.id == h.name for b in h.body for n in ast.walk(b)):
+                        self.res.drops.append("try/except at line %d: handler %s binds/uses the exception object - body only" % (s.lineno, ast.unparse(h.type) if h.type else "bare"))
+                        continue
+                    tnames = [ast.unparse(t) for t in (h.type.elts if isinstance(h.type, ast.Tuple) else [h.type])]
+                    for t in tnames:
+                        names[t] = h
+                for kind, val, fst in self.exec_paths(s.body, cur):
+                    if kind == "fall":
+                        work.append((rest, fst))
+                    elif kind == "raise" and val in names:
+                        work.append((list(names[val].body) + rest, fst))
+                    else:
+                        self.carry.append((kind, val, fst))
                 return []
-            outs = self.run_stmt(s, cur)
+            try:
+                snapshot = cur.copy()
+                outs = self.run_stmt(s, cur)
+            except ForkOn as fk:
+                # re-execute this statement on the two refinements of the state before it
+                ok = snapshot.copy()
+                ok.path.append(fk.cond)
+                ok.ghosts.setdefault("known", set())
+                ok.ghosts["known"] = set(ok.ghosts["known"]) | {(fk.tag, True)}
+                ko = snapshot.copy()
+                ko.path.append(z3.Not(fk.cond))
+                ko.ghosts["known"] = set(ko.ghosts.get("known", set())) | {(fk.tag, False)}
+                if self.feasible(ko):
+                    work.append(([ast.Raise(exc=ast.Name(id=fk.exc_name, ctx=ast.Load()), cause=None)] + rest, ko))
+                if self.feasible(ok):
+                    work.append(([s] + rest, ok))
+                return []
             if len(outs) == 1:
                 cur = outs[0]
             else:
